@@ -125,7 +125,7 @@ def init(project_dir):
     "-v",
     "--verbose",
     type=click.Choice(["warning", "debug", "info", "error"]),
-    default="info",
+    default=None,
     help="Verbosity level.",
 )
 @click.option(
@@ -141,8 +141,6 @@ def main(ctx, file, backend, verbose, no_color):
 
     Shows help for the status command.
     """
-    configure_logging(level_name=verbose)
-
     try:
         path, obj_name = find_workflow(file)
         working_dir = path.parent
@@ -160,6 +158,9 @@ def main(ctx, file, backend, verbose, no_color):
     working_dir.joinpath(".gwf", "logs").mkdir(exist_ok=True)
 
     config = FileConfig.load(working_dir.joinpath(".gwfconf.json"))
+
+    # Command line flag over project configuration over the built-in default.
+    configure_logging(level_name=verbose or config.get("verbose", "info"))
 
     # If the --use-color/--no-color argument is not set, get a value from the
     # configuration file. If nothing has been configured, check if the NO_COLOR
